@@ -45,8 +45,15 @@ var (
 
 func (d *uintDecoder) parseUint(b []byte) (uint64, error) {
 	maxDigit := len(b)
+	if maxDigit > 1 && b[0] == '0' {
+		return 0, fmt.Errorf("invalid number: leading zero")
+	}
 	if maxDigit > pow10u64Len {
 		return 0, fmt.Errorf("invalid length of number")
+	}
+	if maxDigit == pow10u64Len && string(b) > "18446744073709551615" {
+		// 20 digits: the only length at which the sum below can exceed uint64
+		return 0, fmt.Errorf("number is out of range of uint64")
 	}
 	sum := uint64(0)
 	for i := 0; i < maxDigit; i++ {
